@@ -248,6 +248,26 @@ func modelDecode(c *core.Ctx, kind string, width int, src []byte) decRes {
 	panic("modelDecode: kind " + kind)
 }
 
+// flbaWrongWidth: does the stream, decoded as DELTA_BYTE_ARRAY by the model of the Go decoder,
+// hold a value whose length is not width?
+func flbaWrongWidth(c *core.Ctx, width int, src []byte) bool {
+	ans := c.Ask("c04.go_dba_dec " + core.Hexs(src))
+	if !strings.HasPrefix(ans, "GOK ") {
+		return false
+	}
+	s := ans[4:]
+	if s == "_" {
+		return false
+	}
+	for _, v := range strings.Split(s, ",") {
+		v = strings.TrimPrefix(v, "x")
+		if len(v) != 2*width {
+			return true
+		}
+	}
+	return false
+}
+
 // specDecode asks the decoder written from the specification; "NONE" = rejects.
 func specDecode(c *core.Ctx, kind string, width int, src []byte) string {
 	h := core.Hexs(src)
@@ -317,6 +337,7 @@ type decStats struct {
 	streams, goOK, goErr       int
 	lenient, strict, emptyRuns int // Go vs the specification decoder
 	overread, specTurn         int
+	flbaWrongWidth             int // malformed fixed-length DELTA_BYTE_ARRAY streams whose values were not compared
 	foreign, foreignCut        int
 	exOverread, exEmpty        map[string]string
 }
@@ -353,6 +374,14 @@ func (k *checker) tieStream(kind string, width int, stream []byte, what string, 
 		stats.goErr++
 	}
 	m := modelDecode(c, kind, width, stream)
+	if g != m && kind == "dba_flba" && !goBytes && g.status == "ok" && m.status == "ok" && flbaWrongWidth(c, width, stream) {
+		// The stream decodes to values that do not have the declared width: it is not an
+		// encoding of FIXED_LEN_BYTE_ARRAY(width) values.  Go accepts it in every build, but the
+		// AVX2 kernels and the portable loop (which the model follows) lay such values out
+		// differently; the statement is about encoded values, so only the outcome is compared.
+		stats.flbaWrongWidth++
+		return true
+	}
 	if g != m {
 		if k.ok {
 			c.Mismatch("corr:C04.go_decoder."+kind, fmt.Sprintf("%s width %d stream %s (%s)", kind, width, core.Hexs(stream), what), g.String(), m.String(), rec)
@@ -797,6 +826,7 @@ func reportDecoderStats(c *core.Ctx) {
 	for kind, ex := range stats.exEmpty {
 		c.Note("observation: a run header announcing 0 values is skipped by Go's %s decoder without reading a value, the format's grammar gives a run-length run its value: %s", kind, core.Trunc(ex, 500))
 	}
+	c.Note("malformed fixed-length DELTA_BYTE_ARRAY streams whose values do not have the declared width (accepted by Go in every build; the AVX2 kernels and the portable loop lay them out differently, so their values are not compared with the model of the portable code): %d", stats.flbaWrongWidth)
 	for kind, ex := range stats.exOverread {
 		c.Note("observation (malformed input, %d streams): Go decoder %s reads beyond len(src): %s", stats.overread, kind, core.Trunc(ex, 600))
 	}
